@@ -36,6 +36,16 @@ CHECKS = {
         text="For each generated knotted structure the 13-cell grid {HiGHS selected, CBC selected} x {ok, raises PulpSolverError, NotSolved, Infeasible, Unbounded, Undefined} + {no solver} is enumerated completely through both entry points, then a drawn 1-4 step fault sequence runs on one shared solver object. Faults are injected by replacing pulp.HiGHS_CMD / pulp.LpSolverDefault from the harness.",
         note=TRUST + "HiGHS itself is absent from the sandbox: the 'HiGHS selected' cell is a scripted stand-in, so the selection/fallback logic is exercised, not HiGHS. Only the listed fault behaviours are injected.",
         ref="3 C13"),
+    "C14": dict(
+        technique="metamorphic differential across fresh interpreters with different PYTHONHASHSEED values and repeated in-process calls (SHA-256 of every output artefact)",
+        text="Generated-input search over configurations: each corpus file and each Hypothesis-drawn multi-component knotted structure is processed in a fresh interpreter per sampled hash seed, twice per interpreter; digests of all output artefacts (interaction lists, JSON, CSV, BPSEQ, dot-bracket, extended, ordered all-dot-brackets, elements, CLI output, written PDB/mmCIF) must coincide. Sampling of hash seeds - no proof of seed independence.",
+        note=TRUST + "4 (quick) / 8 (thorough) hash seeds are sampled; the 'random' seed is replaced by a VERIF_SEED-derived value to keep runs reproducible.",
+        ref="3 C14"),
+    "C18": dict(
+        technique="constructive generator (points built from a prescribed dihedral) + metamorphic relations (reversal, mirror, rigid motion) + differential v1 vs v2 + corpus torsions against an independent projection formula",
+        text="Generated-input search: ~17k (quick) / ~1M (thorough) quadruples built in internal coordinates so that the IUPAC dihedral is known by construction, then rigidly moved; both implementations, the Atom wrapper, Residue3D.chi/chi_class and the tertiary_v2 torsion table (corpus files) are compared with the prescribed value / an independent formula. The v2 sign inversion is a recorded known finding (exact signature); everything else about v2 and all of v1 is checked without exclusion.",
+        note=TRUST + "Bond angles 20-160 deg, lengths 0.8-2.5 A as the quantifier states; tolerance 1e-7 rad; chi_class is checked only in the uncontroversial anti / syn regions.",
+        ref="3 C18"),
     "C16": dict(
         technique="exhaustive enumeration of pairings + Hypothesis structures against an independent enumeration of greedy-stable colourings (set equality)",
         text="Generated-input search: for all pairings on <=8/11 positions and drawn structures with components of <=6/8 stems, the produced list is compared as a set of per-stem level vectors with the product of all Grundy (greedy-stable) proper colourings computed without permutations; also no repetition, contains optimal and FCFS, singleton for knot-free.",
